@@ -289,16 +289,25 @@ def Api.ownedBySusp (a : Api) (h : Nat) : Bool :=
 @[simp] theorem Api.ownedBySusp_nil (s : State) (st : List (Nat × StreamSt)) (h : Nat) :
     (Api.mk s st []).ownedBySusp h = false := rfl
 
+/-- the pending acquisition is an unresolved item of a `lock_all_entries` stream: only the stream can poll or drop it -/
+def Api.ownedByStream (a : Api) (h : Nat) : Bool :=
+  a.streams.any fun (_, st) => st.items.contains h
+
+@[simp] theorem Api.ownedByStream_nil (s : State) (su : List (Nat × Susp)) (h : Nat) :
+    (Api.mk s [] su).ownedByStream h = false := rfl
+
 def Api.exec (a : Api) (c : Call) : Api × Resp :=
   match c with
   | .lock v h k limit h0 => a.lock v h k limit h0
   | .poll h =>
+    if a.ownedByStream h then (a, ⟨[], .bad⟩) else
     match a.susp.lookup h with
     | some su => a.resume h su
     | none =>
       let (s1, o) := acquire a.s h
       ({ a with s := s1 }, ⟨[], match o with | .bool true => .guard | .bool false => .pending | o => .out o⟩)
   | .cancel h =>
+    if a.ownedByStream h then (a, ⟨[], .bad⟩) else
     match a.susp.lookup h with
     | some su => (a.abandon h su, ⟨[], .ok⟩)
     | none =>
